@@ -136,7 +136,7 @@ def fields(draw, versions: list[int], flex: set[int], top: int, depth: int, stru
                         f["default"] = draw(st.sampled_from(["true", "false", "True", True, False]))
                 elif t == "float64":
                     if draw(st.booleans()):
-                        f["default"] = draw(st.sampled_from(["0.0", "1.5", 0.25, "-2.5", "1e3"]))
+                        f["default"] = draw(st.sampled_from(["0.0", "1.5", 0.25, "-2.5", "1e3", "-0.0", "-0.0"]))
                 elif t in ("string", "bytes", "records"):
                     if draw(st.integers(0, 2)) == 0:
                         nlo, nhi = draw(sub_range(fvers, top))
@@ -184,7 +184,7 @@ def fields(draw, versions: list[int], flex: set[int], top: int, depth: int, stru
                 elif mt == "bool":
                     m["default"] = draw(st.sampled_from(["true", "false"]))
                 elif mt == "float64":
-                    m["default"] = draw(st.sampled_from(["0.0", "1.5", "-2.5"]))
+                    m["default"] = draw(st.sampled_from(["0.0", "1.5", "-2.5", "-0.0"]))
                 else:
                     m["default"] = draw(st.sampled_from(["", "x", "default value"]))
                 members.append(m)
